@@ -44,8 +44,12 @@ theorem mismatched_closer (st : List CTok × List String) (tok : CTok) (e : Stri
     (hend : isBalancedEnd tok.type = true) (hst : st.2 = e :: stack) (hne : tok.type ≠ e) (h1 : tok.type ≠ ">") (h2 : e ≠ ">")
     (hnf : fusedClosers tok.type e stack = false) :
     balStep st tok = .error (unexpectedErr tok e) := by
+  have hsk : skipGt e stack = (e, stack) := by
+    cases stack with
+    | nil => simp [skipGt]
+    | cons a as => simp [skipGt, h2]
   unfold balStep
-  simp [hend, hst, hne, h1, h2, hnf]
+  simp [hend, hst, hne, h1, h2, hnf, hsk]
 
 /-- a closer with nothing open is an error as well -/
 theorem closer_nothing_open (st : List CTok × List String) (tok : CTok)
